@@ -15,8 +15,8 @@ ID = "C01"
 LEVEL = "model_checking"
 RULE = ("Configuration pool = algorithm variants (14 algorithms + wrappers over each base, parameter grid inside the documented "
         "ranges) x 11 partition variants x 6 boxes (dimension 1..3); per config every reward sequence over "
-        "{0,-1,0.5,1e6}^T (E-full, RNG answers with <=1 deviation) and the base scripts {zero,neg,alt,peak,negpeak,twopeak} "
-        "with <=k deviations up to T = 100 = budget (E-dev); oracle after every pull / round: no exception, branch budget not "
+        "{0,-1,0.5,1e6}^T (E-full, RNG answers with <=1 deviation) and the base scripts {zero,neg,alt,peak,negpeak,twopeak,drift} "
+        "with <=k deviations up to T = budget (100..300) (E-dev); oracle after every pull / round: no exception, branch budget not "
         "exceeded, d finite floats inside the box; get_last_point() is queried on a deep copy after rounds of a sparse set "
         "and at the end.  The quick tier takes a VERIF_SEED-rotated quarter of the (box, parameter) pool; thorough takes all.  "
         "distinct_nontrivial = executions whose point sequence has >= 2 distinct points.")
@@ -178,6 +178,7 @@ def param_grid():
     for k in (None, 1, 3):
         g.append(("StoSOO", "StoSOO", dict(n=100, k=k, h_max=100)))
     g.append(("StoSOO", "StoSOO", dict(n=100, k=2, h_max=100, delta=0.5)))
+    g.append(("StoSOO", "StoSOO", dict(n=300, k=2, h_max=300)))
     for n in (100, 150):
         g.append(("SequOOL", "SequOOL", dict(n=n)))
     for n in (100, 1000):
@@ -226,9 +227,9 @@ def tasks(tier, seed):
                     ts.append({"kind": "algo", "label": "full/" + lab, "cfg": cfg, "mode": "full",
                                "T": 3 if tier == "quick" else 4, "R": Rq, "rng_k": 1,
                                "max_exec": 3000 if tier == "quick" else 8000})
-                bases = ("twopeak", "neg") if tier == "quick" else ("zero", "neg", "alt", "peak", "negpeak", "twopeak")
+                bases = ("twopeak", "neg", "drift") if tier == "quick" else ("zero", "neg", "alt", "peak", "negpeak", "twopeak", "drift")
                 for b in bases:
-                    ts.append({"kind": "algo", "label": "base/%s/%s" % (lab, b), "cfg": cfg, "mode": "dev", "T": 100,
+                    ts.append({"kind": "algo", "label": "base/%s/%s" % (lab, b), "cfg": cfg, "mode": "dev", "T": min(300, configs.budget_of(cfg) or 100),
                                "R": list(configs.R4), "base": b, "k": 0})
                 core = (part, K) in configs.PART_CORE and bname in ("u1", "mix2") and (len(configs.BOXES[bname]) > 1) == (part == "DimensionBinary")
                 if core and (tier == "thorough" or not heavy):
